@@ -1,7 +1,8 @@
 """C10 — blob exchange: honest transfer completes, lying peers never poison (part decided).
 
 BOUNDED (real client, server, BlobFile, HashBlobWriter on a real loop over an in-memory wire; not counted as proved):
-transfer.honest (blobs x re-chunkings x sequences), transfer.slow later transfer (a later transfer outlasting the idle time-out),
+transfer.honest (blobs x re-chunkings x sequences), transfer.slow later transfer (outlasting the idle time-out), transfer.peer aborts
+beside another + blob.sendfile[frame] (a peer resetting mid-transfer does not cut other transfers of the same blob),
 transfer.lying server / lying client (misbehaviour catalogues, time-outs).
 KNOWN FINDINGS: C10-F1 body bytes re-parsed as a header; C10-F2 stale announced length blocks honest peers.
 DEDUCTIVE: the real AST of lbry/blob_exchange/{client,server,serialization}.py and AbstractBlob.set_length is symbolically executed
@@ -1545,6 +1546,98 @@ class ServerIdleWatchdog:
                     yield dict(transfers=transfers, fast=fast, slow=slow)
 
 
+# ====================================================================== blob: sendfile closes only its own reader
+
+import contextlib       # noqa: E402
+
+
+class FakeHandle:
+    def __init__(self, name):
+        self.name = name
+        self.is_closed = False
+
+    def close(self):
+        self.is_closed = True
+
+
+class SendingLoop:
+    """loop.sendfile that succeeds or fails the way a socket transport does when the peer went away"""
+
+    def __init__(self, outcome):
+        self.outcome = outcome
+        self.calls = []
+
+    def is_closed(self):
+        return False
+
+    async def sendfile(self, transport, handle, offset=0, count=None):
+        self.calls.append((handle.name, count))
+        if self.outcome == 'reset':
+            raise ConnectionResetError('peer went away')
+        if self.outcome == 'broken pipe':
+            raise BrokenPipeError('peer went away')
+        if self.outcome == 'closing':
+            raise RuntimeError('Transport is closing')
+        return count
+
+
+class ReadableBlob(AbstractBlob):
+    """a verified blob with other transfers in flight; sendfile / reader_context / is_readable are the REAL AbstractBlob methods"""
+
+    def __init__(self, loop, length, others):
+        self.loop = loop
+        self.blob_hash = 'ab' * 48
+        self.length = length
+        self.verified = FakeEvent()
+        self.verified.set()
+        self.writers = {}
+        self.readers = others
+        self.own = FakeHandle('own')
+
+    @contextlib.contextmanager
+    def _reader_context(self):
+        try:
+            yield self.own
+        finally:
+            self.own.close()
+
+
+class SendingProtocol:
+    def __init__(self):
+        self.transport = EventTransport()
+
+
+@proof("C10", "blob.sendfile[frame]")
+class BlobSendfileFrame:
+    """BOUNDED stand-in (run-time contract check; the deductive attempt is outside reach: reader_context is a
+    contextlib.contextmanager generator, which needs suspension at `yield`, /tmp/engine_gaps/C10_3.py).  The REAL
+    AbstractBlob.sendfile / reader_context with two other transfers of the same blob in flight: it reports the bytes sent, or -1
+    when the peer went away, and in both cases closes and unregisters ONLY its own reader: the others stay registered and open"""
+    bounded_only = True
+    note = "4 outcomes of loop.sendfile (sent, connection reset, broken pipe, transport closing) x lengths 1, 5, 2 MiB; 2 other readers"
+    inputs = dict(length=TInt(1, MAX_BLOB_SIZE), outcome=TOneOf(TConst('sent'), TConst('reset'), TConst('broken pipe'), TConst('closing')))
+
+    async def run(length, outcome):
+        first, second = FakeHandle('first'), FakeHandle('second')
+        blob = ReadableBlob(SendingLoop(outcome), length, [first, second])
+        sent = await blob.sendfile(SendingProtocol())
+        return sent, [h.name for h in blob.readers], first.is_closed, second.is_closed, blob.own.is_closed, blob.loop.calls
+
+    def ensures_reports_bytes_or_minus_one(length, outcome, result):
+        return result[0] == (length if outcome == 'sent' else -1) and result[5] == [('own', length)]
+
+    def ensures_other_readers_untouched(result):
+        return result[1] == ['first', 'second'] and not result[2] and not result[3]
+
+    def ensures_own_reader_closed(result):
+        return result[4]
+
+    def samples():
+        for outcome in ('sent', 'reset', 'broken pipe', 'closing'):
+            for length in (1, 5, MAX_BLOB_SIZE):
+                yield dict(length=length, outcome=outcome)
+
+
 # ====================================================================== bounded stand-ins: whole connections (native only)
 # Everything below runs the REAL BlobExchangeClientProtocol, BlobServerProtocol, BlobFile / BlobBuffer and HashBlobWriter on a real
 # asyncio loop; only the socket pair is replaced by an in-memory wire that re-chunks the byte stream.  Never counted as proved.
@@ -1626,18 +1719,20 @@ class LoopFacade:
     async def sendfile(self, transport, handle, offset=0, count=None):
         if transport.is_closing():
             raise ConnectionResetError('closed')
-        data = handle.read(count)
         pause = self.pauses.pop(0) if self.pauses else 0
-        if pause:
-            # a slow transfer: half of the body, a pause, the rest (the socket buffer of a slow peer drains late)
-            transport.write(data[:len(data) // 2])
-            await asyncio.sleep(pause)
-            if transport.is_closing():
-                raise ConnectionResetError('closed')
-            transport.write(data[len(data) // 2:])
-        else:
+        if not pause:
+            data = handle.read(count)
             transport.write(data)
-        return len(data)
+            return len(data)
+        # a slow transfer: half of the body is read and sent, a pause, then the rest is read from the SAME handle and sent
+        first = handle.read(count // 2)
+        transport.write(first)
+        await asyncio.sleep(pause)
+        if transport.is_closing():
+            raise ConnectionResetError('closed')
+        rest = handle.read(count - len(first))      # ValueError if somebody closed the handle meanwhile
+        transport.write(rest)
+        return len(first) + len(rest)
 
 
 class Wire:
@@ -1948,6 +2043,83 @@ class SlowLaterTransfer:
         yield dict(pauses=[0, 1], s2c='glued')
         yield dict(pauses=[1, 1], s2c='k=7')
         yield dict(pauses=[0, 0, 1], s2c='glued')
+
+
+@proof("C10", "transfer.peer aborts beside another")
+class PeerAbortsBesideAnother:
+    """BOUNDED stand-in (run-time contract check, no deductive part).  Client A (real) downloads a blob from the real server over a
+    slow transfer (pause in the middle of the body); while A's transfer is in flight a second peer B asks the same blob manager for a
+    blob over its own connection and goes away (connection reset) before the transfer starts / while the header is on its way / after
+    some body bytes -- or behaves.  Whatever B does, A ends with the verified, byte-identical blob (keeps serving others)."""
+    bounded_only = True
+    inputs = dict(b_does=TStr(), same_blob=TBool())
+    note = ("B: resets before its transfer starts, during the header, after half of the body, or downloads normally; B asks for the "
+            "same blob as A or for another one; A's transfer pauses 0.3 s mid-body so that it is in flight throughout")
+
+    async def run(b_does, same_blob):
+        loop = asyncio.get_running_loop()
+        tmp = tempfile.mkdtemp(prefix='c10-')
+        try:
+            os.mkdir(os.path.join(tmp, 'server'))
+            data_a = BLOBS['text']
+            data_b = data_a if same_blob else BLOBS['braces']
+            facade = LoopFacade(loop, [0.3, 0.1])           # A's transfer, then B's
+            manager = ServerSide(facade, os.path.join(tmp, 'server'))
+            await manager.hold(data_a)
+            await manager.hold(data_b)
+            client_a, server_a = new_real_client(loop), new_real_server(loop, manager)
+            conn_a = Connection(client_a, server_a, 'glued', 'glued')
+            blob_a = new_client_blob(LoopFacade(loop), blob_hash_of(data_a), None)
+            task_a = loop.create_task(download(conn_a, client_a, blob_a))
+            await asyncio.sleep(0.03)                        # A's request is served: first half sent, transfer pausing
+            in_flight = len(manager.get_blob(blob_hash_of(data_a)).readers) == 1
+            server_b = new_real_server(loop, manager)
+            b_ok = None
+            if b_does == 'downloads':
+                client_b = new_real_client(loop)
+                conn_b = Connection(client_b, server_b, 'glued', 'glued')
+                blob_b = new_client_blob(LoopFacade(loop), blob_hash_of(data_b), None)
+                b_ok, _ = await download(conn_b, client_b, blob_b)
+                b_ok = b_ok and stored_bytes(blob_b) == data_b
+                blob_b.close()
+            else:
+                peer_b = ScriptedClient()
+                conn_b = Connection(peer_b, server_b, 'glued', 'glued')
+                peer_b.transport.write(request_for(blob_hash_of(data_b)))
+                conn_b._deliver(conn_b.to_server, server_b, peer_b)      # the request reaches the server: handler task created
+                if b_does == 'resets before the transfer':
+                    conn_b.to_client.close()                               # the reset is already known when the handler runs
+                    await asyncio.sleep(0.01)
+                else:
+                    await asyncio.sleep(0.01)                              # handler: header and first half of the body written
+                    if b_does == 'resets after half of the body':
+                        conn_b._deliver(conn_b.to_client, peer_b, server_b)
+                    conn_b.to_client.close()                               # reset while B's transfer pauses
+                await asyncio.sleep(0.15)                                  # B's sendfile notices the closed transport
+                conn_b._lose(server_b, ConnectionResetError('reset by peer'))
+            ok, seconds = await task_a
+            result = dict(in_flight=in_flight, ok=ok, verified=blob_a.get_is_verified(), identical=stored_bytes(blob_a) == data_a,
+                          b_ok=b_ok)
+            blob_a.close()
+            server_a.connection_lost(None)
+            return result
+        finally:
+            shutil.rmtree(tmp, ignore_errors=True)
+
+    def ensures_a_was_in_flight_when_b_arrived(result):
+        return result['in_flight']
+
+    def ensures_a_ends_verified_and_identical(result):
+        return result['ok'] and result['verified'] and result['identical']
+
+    def ensures_well_behaved_b_is_served_too(b_does, result):
+        return b_does != 'downloads' or result['b_ok']
+
+    def samples():
+        for b_does in ('resets before the transfer', 'resets during the header', 'resets after half of the body', 'downloads'):
+            yield dict(b_does=b_does, same_blob=True)
+        for b_does in ('resets during the header', 'downloads'):
+            yield dict(b_does=b_does, same_blob=False)
 
 
 # ---- lying server
@@ -2303,6 +2475,9 @@ NOT_DECIDED = [
     "what is recognised is the parse of the prefix in front of the rest); first-ness of the recognised prefix rests on the JSON grammar",
     "close_on_idle is proved against a model of the handler's side (each transfer sets started_transfer at its start and "
     "transfer_finished at its end, at most 2 transfers, no two transfers overlapping); real durations only in the stand-ins",
+    "AbstractBlob.sendfile / reader_context (own reader only is closed when a peer goes away): contextlib.contextmanager generators "
+    "are outside the engine's reach (/tmp/engine_gaps/C10_3.py): bounded stand-ins blob.sendfile[frame] and transfer.peer aborts "
+    "beside another only",
     "the misbehaviour catalogue at every message position and all re-chunkings of whole transfers: bounded stand-ins only",
     "JSON values outside the two catalogues of shapes (e.g. nested containers as leaf values)",
     "resource use of a peer that never completes a header (the client buffer is unbounded until the time-out; each fragment re-scans it)",
